@@ -193,14 +193,7 @@ def decode_json_document(content, document):
     for bundle_id, bundle_content in bundles.items():
         bundle = ProvBundle(document=document)
         decode_json_container(bundle_content, bundle)
-        # the keys of the bundle map are names of the document's scope (that is
-        # where the writer prints them); the bundle's own declarations are only
-        # consulted for a key the document cannot resolve
-        document.add_bundle(
-            bundle,
-            document.valid_qualified_name(bundle_id)
-            or bundle.valid_qualified_name(bundle_id),
-        )
+        document.add_bundle(bundle, bundle.valid_qualified_name(bundle_id))
 
 
 def decode_json_container(jc, bundle):
